@@ -260,24 +260,18 @@ Definition code_elem (orow ocol : list nat) (e : result (option (list nat * list
   | Error _ => (-1)%Z
   end.
 
-(* Coq prints about 3000 numerals per second whatever their size: pack 24 cells (each < 2^40 - 1)
-   into one number, most significant first, each stored as cell + 1 in a 40-bit field *)
-Fixpoint pack_go (fuel : nat) (acc : Z) (l : list Z) : Z * list Z :=
-  match fuel, l with
-  | S f, c :: r => pack_go f (Z.shiftl acc 40 + (c + 1))%Z r
-  | _, _ => (acc, l)
-  end.
+(* Coq prints (and parses) only about 2000-3000 numerals per second, so big tables are returned as
+   a digest: two independent polynomial hashes modulo the Mersenne prime 2^61 - 1 over the row-major
+   sequence of cells.  The harness computes the same digest from the implementation's matrix and
+   asks for the full table (limit = 0 means no limit) when they differ. *)
+Definition hash_cells (B : Z) (l : list Z) : Z :=
+  fold_left (fun h c => ((h * B + c + 1) mod 2305843009213693951)%Z) l 0%Z.
 
-Fixpoint pack40 (fuel : nat) (l : list Z) : list Z :=
-  match fuel, l with
-  | S f, _ :: _ => let '(w, r) := pack_go 24 0%Z l in w :: pack40 f r
-  | _, _ => []
-  end.
-
-(* [1] if the call is rejected, else 0 :: N :: result dims ++ #cells :: pack40 cells, one cell per
-   entry (x,y) that is not zero, in row-major order:  (x*D + y) * (R*C + 1) + code  with
-   code = 1 + r*C + c, or code = 0 when the model cannot evaluate the entry *)
-Definition expand_table_z (dims orow ocol : list nat) (ts : tspec) : list Z :=
+(* [1] if the call is rejected, else 0 :: N :: result dims ++ #cells :: body, one cell per entry (x,y)
+   that is not zero, in row-major order:  (x*D + y) * (R*C + 1) + code  with code = 1 + r*C + c, or
+   code = 0 when the model cannot evaluate the entry.
+   body = the cells if limit = 0 or #cells <= limit, else [hash 1000003; hash 998244353] *)
+Definition expand_table_z (limit : nat) (dims orow ocol : list nat) (ts : tspec) : list Z :=
   match expand_plan dims orow ocol ts with
   | Error _ => [1%Z]
   | Ok p =>
@@ -295,7 +289,9 @@ Definition expand_table_z (dims orow ocol : list nat) (ts : tspec) : list Z :=
                   | Zpos c => [(pos * M + Zpos c)%Z]
                   | Zneg _ => [(pos * M)%Z]
                   end) labels) labels in
-      0%Z :: Z.of_nat (length rd) :: map Z.of_nat rd ++ Z.of_nat (length cells) :: pack40 (length cells) cells
+      0%Z :: Z.of_nat (length rd) :: map Z.of_nat rd ++ Z.of_nat (length cells) ::
+      (if (Nat.eqb limit 0 || (length cells <=? limit))%bool then cells
+       else [hash_cells 1000003 cells; hash_cells 998244353 cells])
   end.
 
 (* same header, then the code of each queried entry *)
